@@ -268,10 +268,10 @@ fn build_frame(p: &Plan, k: usize, f: &InFrame, pids: &[Val], rpc_from: &Option<
             // a SEND to an identifier that differs from the outstanding call's reply identifier in
             // exactly one field (another incarnation, another serial, a neighbouring number): nobody's
             let Some(Val::Pid { node, id, serial, creation }) = rpc_from.clone() else { return None };
-            let to = match f.seed % 3 {
+            // (a neighbouring process number could be a real, later allocated identifier: not used)
+            let to = match f.seed % 2 {
                 0 => Val::Pid { node, id, serial, creation: creation.wrapping_add(1) },
-                1 => Val::Pid { node, id, serial: serial.wrapping_add(1), creation },
-                _ => Val::Pid { node, id: id.wrapping_add(1), serial, creation },
+                _ => Val::Pid { node, id, serial: serial.wrapping_add(1), creation },
             };
             let pl = Val::tuple(vec![Val::atom("rex"), payload("near_miss", k, f.seed)]);
             wire::pass_through(&Val::tuple(vec![Val::int(2), Val::atom(""), to]), Some(&pl))
